@@ -1,7 +1,7 @@
 (** C08 — statements at the level of FindEdges / Distance / IsDistanceLess, the premises
     bundled, [interior_zero], and the refutation witnesses for the unrepaired code. *)
 From Coq Require Import ZArith List Bool Lia Sorted.
-From Geo Require Import Model.EdgeQuery Proofs.C08_Post Proofs.C08_Opt.
+From Geo Require Import Model.EdgeQuery Proofs.C08_Post Proofs.C08_Opt Proofs.C08_Heap.
 Import ListNotations.
 Local Open Scope Z_scope.
 
@@ -25,12 +25,6 @@ Section Premises.
   Definition SplitSound (x : index) (Vq : Z -> Prop) : Prop := forall q, Vq q ->
     (forall ce, In ce (split_cell x q) -> Vq (fst ce) /\ centry_ok x ce) /\
     (forall c, In c (x_cells x) -> rep (q, None) c -> exists ce, In ce (split_cell x q) /\ rep ce c).
-  Definition HeapSpec : Prop := exists HI : list (qentry D) -> Prop,
-    HI [] /\
-    (forall q a, HI q -> HI (heap_push D ops q a) /\ forall b, In b (heap_push D ops q a) <-> b = a \/ In b q) /\
-    (forall q en q', HI q -> heap_pop D ops q = Some (en, q') ->
-       HI q' /\ In en q /\ (forall b, In b q -> b = en \/ In b q') /\ (forall b, In b q' -> In b q) /\
-       (forall b, In b q' -> less (q_dist b) (q_dist en) = false)).
   Definition EmptyFar (t : target D) (edist : eid -> D) : Prop :=
     t_cap_empty t = true -> forall e lim, less (edist e) lim = false.
   Definition ZeroMin (edist : eid -> D) : Prop := forall e, less (edist e) (d_zero ops) = false.
@@ -49,7 +43,6 @@ Section Premises.
     p_suble : SubLe o;
     p_lb : LB x edist cdist Vq;
     p_split : SplitSound x Vq;
-    p_heap : HeapSpec;
     p_empty : EmptyFar t edist;
     p_zeromin : ZeroMin edist;
     p_cover : CoverSound t x brk edist Vq;
@@ -168,7 +161,8 @@ Section Premises.
     (o_max_results o <> 1 -> out_o = out_b) /\
     (ErrZero o -> map r_dist out_o = map r_dist out_b).
   Proof.
-    intros [[Ee Ec] Sl Lb Sp (HI & Hn & Hpush & Hpop) Em Zm Cv Ix] Term. cbn.
+    intros [[Ee Ec] Sl Lb Sp Em Zm Cv Ix] Term. cbn.
+    destruct (heap_spec D ops OK) as (HI & Hn & Hpush & Hpop).
     unfold find_edges, find_edges_from. unfold Terminates in Term.
     change (truncate D (with_brute o)) with (truncate D o).
     destruct (interiors_state_props o t) as (Q1 & T1 & K1).
@@ -210,7 +204,8 @@ Section Premises.
        (exists e, In e (all_edges x) /\ r = mkres D edist e /\ less (edist e) (o_limit o) = true) /\
        (forall e, In e (all_edges x) -> less (edist e) (sub (r_dist r) (o_max_error o)) = false)).
   Proof.
-    intros [[Ee Ec] Sl Lb Sp (HI & Hn & Hpush & Hpop) Em Zm Cv Ix] Term K L0 R1. cbn.
+    intros [[Ee Ec] Sl Lb Sp Em Zm Cv Ix] Term K L0 R1. cbn.
+    destruct (heap_spec D ops OK) as (HI & Hn & Hpush & Hpop).
     unfold find_edges, find_edges_from. unfold Terminates in Term.
     destruct (interiors_state_props o t) as (Q1 & T1 & _).
     assert (Lim1 : s_limit (interiors_state o t) = o_limit o) by (apply interiors_state_limit; right; exact R1).
